@@ -916,7 +916,7 @@ func (vm *VM) throw(err *RuntimeError, noTrace bool) error {
 	}
 
 	// firstly check our frame has error handler
-	if vm.curFrame.errHandlers.hasHandler() {
+	if vm.curFrame.errHandlers.hasLiveHandler() {
 		return vm.handleThrownError(vm.curFrame, err)
 	}
 
@@ -927,7 +927,7 @@ func (vm *VM) throw(err *RuntimeError, noTrace bool) error {
 	for index >= 0 {
 		f := &(vm.frames[index])
 		err.addTrace(getFrameSourcePos(f))
-		if f.errHandlers.hasHandler() {
+		if f.errHandlers.hasLiveHandler() {
 			frame = f
 			break
 		}
@@ -1465,6 +1465,19 @@ func (t *errHandlers) last() *errHandler {
 
 func (t *errHandlers) hasHandler() bool {
 	return t != nil && len(t.handlers) > 0
+}
+
+// hasLiveHandler drops the handlers of try statements that are already
+// executing their last block (neither catch nor finally is left to run) and
+// reports whether a handler that can take an error remains.
+func (t *errHandlers) hasLiveHandler() bool {
+	for t.hasHandler() {
+		if h := t.last(); h.catch > 0 || h.finally > 0 {
+			return true
+		}
+		t.pop()
+	}
+	return false
 }
 
 func (t *errHandlers) findFinally(upto int) int {
